@@ -716,6 +716,13 @@ impl Connection {
 
                 // Allocate space for another datagram
                 let next_datagram_size_limit = match self.spaces[space_id].loss_probes {
+                    // Every packet on an unvalidated path carries the PATH_CHALLENGE. The MTU
+                    // estimate was inherited from another path, so keep those datagrams at the
+                    // minimum MTU as well: otherwise a path that is reachable but narrower could
+                    // never be validated.
+                    0 if space_id == SpaceId::Data && self.path.challenge.is_some() => {
+                        cmp::min(segment_size, usize::from(INITIAL_MTU))
+                    }
                     0 => segment_size,
                     _ => {
                         self.spaces[space_id].loss_probes -= 1;
